@@ -6,6 +6,9 @@ import (
 	"sort"
 	"testing"
 
+	"github.com/elastos/Elastos.ELA/core/types"
+	"github.com/elastos/Elastos.ELA/core/types/payload"
+
 	"verif/sim/core"
 )
 
@@ -213,6 +216,50 @@ func TestScen(t *testing.T) {
 				fmt.Printf("depth %d %-15s tx=%d rej=%d  %v\n", depth, n, probes["tx/"+cases[n].K], probes["rejected/"+cases[n].K+"/special-context"], cl)
 			}
 		}
+	case "incidental":
+		// the two defects outside C21/C27/C28 that NOTES.md describes
+		core.Bubble(t, func() {
+			resetGlobals()
+			k := baseKnobs()
+			p := &core.Plan{Seed: 4242, Knobs: k}
+			w := &world{plan: p, seed: 4242, c: nil}
+			w.params = buildParams(p)
+			for i := 0; i < 8; i++ {
+				w.producers = append(w.producers, newActor(4242, "prod", i))
+			}
+			for i := 0; i < 3; i++ {
+				w.voters = append(w.voters, newActor(4242, "voter", i))
+			}
+			w.initChain()
+			w.subscribe()
+			in := w.newInstance("node")
+			w.inst = in
+			feed := func() (pan interface{}) {
+				sb := w.buildBlock(nil, 120, nil)
+				w.appendBlock(sb)
+				defer func() { pan = recover() }()
+				in.best = sb.blk.Height
+				in.ckp.OnBlockSaved(&types.DposBlock{Block: sb.blk}, nil, false, 0, false)
+				return nil
+			}
+			for h := 1; h <= 16; h++ { // past ChangeCommitteeNewCRHeight (14); nobody is registered or voted
+				if pan := feed(); pan != nil {
+					fmt.Println("unexpected panic at", h, pan)
+				}
+			}
+			pl := &payload.InactiveArbitrators{Arbitrators: [][]byte{w.producers[0].nodes[0].pk}, BlockHeight: 17}
+			err := in.arb.ProcessSpecialTxPayload(pl, 16) // what PreProcessSpecialTx does for a block at 17
+			fmt.Println("(a) ProcessSpecialTxPayload error (connectBlock refuses the block):", err)
+			fmt.Println("(a) next block:", feed())
+
+			in2 := w.newInstance("node2") // StartHeight() = min(VoteStartHeight 1, CRCOnly 4 - PreConnect 1) = 1
+			func() {
+				defer func() { fmt.Println("(b) OnRollbackTo(0) below StartHeight:", recover()) }()
+				fmt.Println("(b) returned", in2.ckp.OnRollbackTo(0, false))
+			}()
+			in.close()
+			in2.close()
+		})
 	case "reactivate":
 		// cancel, wait out the lock-up, get marked illegal, activate, cancel again
 		k := baseKnobs()
